@@ -37,7 +37,8 @@ def stmt_index(fn, node):
 
 def rule_drain(ctx):
     R = "C03.1"
-    ctx.rule(R, "the per-definition report cache is drained after the call that may fill it (CFG generation), and what was drained is what is written; every pass result is appended to that collection")
+    ctx.rule(R, "the per-definition report cache is drained after the call that may fill it (CFG generation), and what was drained is what is written; every pass result is appended to that collection; the cache takes every report it is handed")
+    rule_cache_append(ctx, R)
     for kind in ("template", "function"):
         fn = find_fn(RUN, "analyze_" + kind)
         if fn is None:
@@ -431,6 +432,20 @@ def rule_region(ctx, R="C03.8"):
         ctx.check(R, "ReportLabel::to_sarif/" + m, ok, det, site(SC, fn))
     uri = env.get("file_uri")
     ctx.check(R, "ReportLabel::to_sarif/uri-of-the-label-file", uri is not None and render(strip(uri)).replace(" ", "").startswith("self.file_id.to_uri(files)"), render(uri) if uri else "?", site(SC, fn))
+
+
+def rule_cache_append(ctx, R):
+    """the per-definition report caches take every report they are handed (no de-duplication, no filter)"""
+    for kind in ("template", "function"):
+        f = find_fn(RUN, "append_%s_reports" % kind)
+        if f is None:
+            ctx.missing(R, "append_%s_reports" % kind)
+            continue
+        pv = sgrep.params(f)
+        body = f["body"]
+        ok = len(pv) == 2 and (sgrep.has(body, "self.%s_reports.entry(__k).or_default().append(__r)" % kind, sgrep.lets(body), {"__r": pv[1]}) or sgrep.has(body, "self.%s_reports.entry(__k).or_default().extend(__r.drain(..))" % kind, sgrep.lets(body), {"__r": pv[1]}))
+        plain = not [n for n in walk(body) if n["k"] in ("If", "Match", "For", "While", "Loop", "Closure")] and not [c for c in walk(body) if c["k"] == "Call" and c["func"]["k"] == "Path" and "::" not in c["func"]["path"]]
+        ctx.check(R, "append_%s_reports/appends-everything" % kind, ok and plain, render(body)[:200], site(RUN, f))
 
 
 def rule_label_passthrough(ctx, R):
